@@ -15,8 +15,8 @@ FAMS = {
     "C06": (["gates"], ["gates", "gates2"]),
     "C07": (["contq", "gates"], ["cont", "gates", "gates2", "live"]),
     "C08": (["order", "retry", "poll"], ["order", "retry", "poll", "tolerance", "gates"]),
-    "C09": (["crash", "crash2"], ["crash", "crash2", "crashchk", "crashchkfn"]),
-    "C10": (["crashfn", "crashchkfn", "crash"], ["crash", "crashfn", "crash2", "crash2fn", "crashchk", "crashchkfn", "livecrash"]),
+    "C09": (["crash", "crash2"], ["crash", "crash2", "crashchk", "crashchkfn", "crashdeep"]),
+    "C10": (["crashfn", "crashchkfn", "crash"], ["crash", "crashfn", "crash2", "crash2fn", "crashchk", "crashchkfn", "livecrash", "crashdeepfn"]),
     "C11": (["aged1"], ["aged1", "aged", "aged2"]),
     "C12": ([], []),
 }
@@ -31,7 +31,8 @@ GEN_OUT = {"ShapesRetry": ("All4", "OkPerm")}
 _cache = {}
 
 
-def run_cfg(name, timeout=1500):
+def run_cfg(name, timeout=None):
+    timeout = timeout or (5400 if "deep" in name else 1500)
     if name in _cache:
         return _cache[name]
     d = vlib.scratch("mc_" + name)
